@@ -13,6 +13,8 @@ import (
 	"time"
 
 	"pgregory.net/rapid"
+
+	"verif/dsl"
 )
 
 // ---------------------------------------------------------------------------------
@@ -61,6 +63,24 @@ func (x *Ctx) Class(name string) {
 	x.classes = append(x.classes, name)
 }
 func (x *Ctx) NonTrivial()                 { x.nontrivial = true }
+
+// compileCostLimit bounds dsl.ParseCost (roughly milliseconds of compile time) of the texts
+// submitted to gengine: the ANTLR parser needs time and memory exponential in the nesting of
+// bracket groups inside operator chains (known finding of C10, DESIGN.md section 5), so a
+// text above the limit is not submitted but counted.
+const compileCostLimit = 400
+
+// tooCostly reports (and counts) a text whose estimated compile cost is above the limit.
+func tooCostly(x *Ctx, text string) bool {
+	if dsl.ParseCost(text) <= compileCostLimit {
+		return false
+	}
+	x.Class("excluded:estimated-compile-cost-above-limit")
+	st.mu.Lock()
+	st.Known["compile-cost-blowup"]++
+	st.mu.Unlock()
+	return true
+}
 func (x *Ctx) hasClass(name string) bool {
 	for _, c := range x.classes {
 		if c == name {
